@@ -32,6 +32,10 @@ def violators (e : Env) (s : State) : List (String × String × List String) :=
         let open_ := s.orders.filter (fun o => o.dataId = m.dataId && o.status ≠ OrderCompleted)
         if (if m.status = MetaComplete then open_.isEmpty else open_.map (·.id) = [m.orderId]) then none else some s!"meta-order{m.orderId}")),
     ("C20", "superInv", s.nodes.filterMap (fun n => if n.role = 0 || superPredicate s n then none else some s!"node{n.creator}")),
+    ("C11", "modelOutlivesShards", s.shards.filterMap (fun sh => if sh.status ≠ ShardCompleted || (addU64 sh.createdAt sh.duration : Int) ≤ s.h ||
+        (match s.getOrder sh.orderId with | some o => (s.getMeta o.dataId).isSome | none => true) then none else some s!"shard{sh.id}")),
+    ("C11", "shardBacked", s.shards.filterMap (fun sh => if sh.status ≠ ShardCompleted || ((s.getPledge sh.sp).isSome && (s.getWorker sh.sp).isSome) then none else some s!"shard{sh.id}")),
+    ("C04", "escrowsSettled", if escrowsSettled e s then [] else ["escrows"]),
     ("C17", "didFunctional", if didFunctional s.did then [] else ["did"]),
     ("C17", "didListsAgree", if didListsAgree s.did then [] else ["did"]),
     ("C17", "sidPayAddrBound", if sidPayAddrBound s.did then [] else ["did"]),
@@ -197,6 +201,39 @@ def checkStep (e : Env) (pre : Sys) (op : Op) (res : Res) (post : Sys) : List (S
    else []) ++
   -- C10: the actor of an accepted message must be entitled to act for what it touched
   (if res = .ok then (actorViolations pre.st op).map (fun v => ("C10", s!"clause=actor cls={match op with | .cancel .. => "cancel-claimed-provider" | _ => "none"} rec={v}")) else []) ++
+  -- C11: a completed shard disappears only at/after the end of its paid period, or through an
+  -- owner/grantee request (terminate, force-push completion), a migration hand-over or a cancel
+  (let gone := pre.st.shards.filter (fun sh => sh.status = ShardCompleted && (post.st.getShard sh.id).isNone)
+   let early := gone.filter (fun sh => (post.st.h : Int) < (addU64 sh.createdAt sh.duration : Int))
+   let allowed := match op with
+     | .terminate .. => true
+     | .complete .. => true     -- force-push settlement / migration hand-over
+     | .cancel .. => true
+     | _ => false
+   if early ≠ [] ∧ !allowed then early.map (fun sh => ("C11", s!"clause=releasedEarly cls=none rec=shard{sh.id}")) else []) ++
+  (if isBlockEnd op && res = .ok && !noOverdueShard post.st then [("C11", "clause=noOverdueShard cls=none")] else []) ++
+  -- C05: an order that ends with no shard ever completed is refunded in full and leaves nothing behind
+  (let ended := pre.st.orders.filter (fun o => o.status ≠ OrderCompleted && o.operation ≠ 3 && (post.st.getOrder o.id).isNone)
+   let viaTimeoutOrCancel := match op with
+     | .cancel .. => true
+     | .end_ => true
+     | _ => false
+   if res = .ok && viaTimeoutOrCancel then
+     ended.filterMap (fun o =>
+       let pd := if o.paymentDid ≠ 0 then o.paymentDid else o.owner
+       let refunded := match pre.st.paymentAddress pd with
+         | some a => post.st.bal a - pre.st.bal a ≥ o.amount
+         | none => false
+       let shardsGone := o.shards.all (fun id => (post.st.getShard id).isNone)
+       let metaOk := match pre.st.getMeta o.dataId with
+         | none => true
+         | some m => if m.commits.isEmpty then (post.st.getMeta o.dataId).isNone && (post.st.getModel (metaKey m)).isNone
+                     else (match post.st.getMeta o.dataId with
+                           | some m' => m'.status = MetaComplete && m'.commits = m.commits && some m'.commit = (m.commits.getLast?.map commitFromVersion)
+                           | none => false)
+       if refunded && shardsGone && metaOk then none
+       else some ("C05", s!"clause=cleanRefund cls=none rec=order{o.id}:refund={refunded},shards={shardsGone},meta={metaOk}"))
+   else []) ++
   -- C19
   (if res = .ok then (faultViolations pre.st post.st op).map (fun v => ("C19", s!"clause=faultReport cls=none rec={v}")) else []) ++
   -- C17: a binding was created although the signed proof message does not name the DID
@@ -205,6 +242,14 @@ def checkStep (e : Env) (pre : Sys) (op : Op) (res : Res) (post : Sys) : List (S
    | _, _ => []) ++
   -- C03/C01: a package-variable residue is created by this step (it outlives the transaction)
   (if pre.global = 0 && post.global ≠ 0 then [("C03", s!"clause=globalResidue cls={match res with | .ok => "ok-tx" | _ => "failed-tx"}")] else []) ++
-  (if isBlockEnd op && res = .ok && !timeoutPending post.st then [("C12", s!"clause=timeoutPending cls={cls}")] else [])
+  -- C12: every unfinished order has a pending re-examination after each block; the class names the
+  -- known stop condition `height + timeout >= createdAt + duration` of HandleTimeoutOrder (finding F15)
+  (if isBlockEnd op && res = .ok then
+    let stuck := post.st.orders.filter (fun o => unfinished post.st o &&
+      !(post.st.timeoutQ.any (fun e => (e.1 : Int) > post.st.h && e.2.contains o.id)))
+    let wasStuck := fun (o : Order) => unfinished pre.st o && !(pre.st.timeoutQ.any (fun e => (e.1 : Int) ≥ pre.st.h && e.2.contains o.id))
+    (stuck.filter (fun o => !wasStuck o)).map (fun o =>
+      ("C12", s!"clause=timeoutPending cls={if addU64 (toU64 post.st.h) o.timeout ≥ addU64 o.createdAt o.duration then "near-end-of-life" else "none"} rec=order{o.id}"))
+   else [])
 
 end SaoVerif.Monitors
